@@ -124,35 +124,30 @@ Proof.
   intros s s' seen Hc HCS Hm Hty.
   destruct o as [k0 c0 b a|k0|k0 a|c0|n|x|n]; cbn [in_class] in Hc; try discriminate; cbn [apply_batch_op] in Hm.
   - (* drop *)
-    destruct (aget k0 (b_cols s)); [|discriminate]. destruct (mem_name k0 (b_existing s)); [|discriminate].
-    inversion Hm; subst s'; clear Hm. intros k tr c Ht Hcc. cbn in Ht, Hcc.
+    destruct (aget k0 (b_cols s)) as [cx|]; [|discriminate]. destruct (mem_name k0 (b_existing s)); [|discriminate].
+    inversion Hm; subst s'; clear Hm. intros k tr c Ht Hcc. cbn [b_tr b_cols] in Ht, Hcc.
     destruct (name_eqb k k0) eqn:E.
     + apply name_eqb_eq in E. subst. rewrite aget_adel_same in Ht. discriminate.
-    + apply name_eqb_neq in E. rewrite aget_adel_other in Ht, Hcc; auto.
+    + apply name_eqb_neq in E. rewrite aget_adel_other in Ht; auto. rewrite aget_adel_other in Hcc; auto.
   - (* alter *)
     destruct (aget k0 (b_cols s)) as [c|] eqn:G; [|discriminate]. destruct (aget k0 (b_tr s)) as [t|] eqn:Gt; [|discriminate].
-    inversion Hm; subst s'; clear Hm. intros k tr c' Ht Hcc. cbn in Ht, Hcc.
+    inversion Hm; subst s'; clear Hm. intros k tr c' Ht Hcc. cbn [b_tr b_cols] in Ht, Hcc.
     destruct (name_eqb k k0) eqn:E.
-    + apply name_eqb_eq in E. subst k0. rewrite aget_aset_same in Ht, Hcc. inversion Ht; inversion Hcc; subst tr c'; clear Ht Hcc.
+    + apply name_eqb_eq in E. subst k0. rewrite aget_aset_same in Ht. rewrite aget_aset_same in Hcc. inversion Ht; inversion Hcc; subst tr c'; clear Ht Hcc.
       destruct (HCS k t c Gt G) as [cs [c1 [H1 [H2 H3]]]].
-      cbn [types_once] in Hty. destruct a as [an aty anl adf]; cbn in *.
+      cbn [types_once] in Hty. destruct a as [an aty anl adf]; cbn [al_name al_type al_nullable al_default] in *.
+      assert (Hmem : mem_name k (k :: seen) = true) by (cbn; rewrite name_eqb_refl; auto).
       destruct aty as [nt|].
       * rewrite andb_true_r in Hty. apply negb_true_iff in Hty. rewrite Hty in H3. destruct H3 as [-> H3].
-        rewrite name_eqb_refl. cbn.
-        assert (Hty1 : c_ty (if match an with Some n => negb (name_eqb n (c_name c)) | None => false end
-                             then mkCol (match an with Some n => n | None => c_name c end) (c_ty c) (c_nullable c) (c_default c) else c) = c_ty c)
-          by (destruct (match an with Some n => negb (name_eqb n (c_name c)) | None => false end); auto).
-        rewrite Hty1.
         exists (if N.eqb (affinity (c_ty c)) (affinity nt) then [] else [nt]), c1. split; [|split; auto].
-        { destruct (match an with Some n => negb (name_eqb n (c_name c)) | None => false end); cbn; rewrite H1;
+        { destruct an as [n|]; [destruct (negb (name_eqb n (c_name c)))|]; cbn;
             destruct (N.eqb (affinity (c_ty c)) (affinity nt)); cbn; rewrite ?H1; auto. }
-        { destruct anl, adf; cbn; rewrite H3; auto. }
+        { rewrite Hmem. rewrite <- H3.
+          destruct an as [n|]; [destruct (negb (name_eqb n (c_name c)))|]; destruct anl, adf; cbn; auto. }
       * exists cs, c1. split; [|split; auto].
-        { destruct (match an with Some n => negb (name_eqb n (c_name c)) | None => false end); cbn; auto. }
-        { assert (Hty1 : forall X, c_ty (match adf with Some d => mkCol (c_name X) (c_ty X) (c_nullable X) d | None => X end) = c_ty X)
-            by (intros; destruct adf; auto).
-          destruct (match an with Some n => negb (name_eqb n (c_name c)) | None => false end); destruct anl, adf; cbn; auto. }
-    + apply name_eqb_neq in E. rewrite aget_aset_other in Ht, Hcc; auto.
+        { destruct an as [n|]; [destruct (negb (name_eqb n (c_name c)))|]; cbn; auto. }
+        { destruct an as [n|]; [destruct (negb (name_eqb n (c_name c)))|]; destruct anl, adf; cbn; auto. }
+    + apply name_eqb_neq in E. rewrite aget_aset_other in Ht; auto. rewrite aget_aset_other in Hcc; auto.
       destruct (HCS k tr c' Ht Hcc) as [cs [c1 [H1 [H2 H3]]]]. exists cs, c1. split; [|split]; auto.
       destruct (al_type a); auto. cbn. destruct (name_eqb k k0) eqn:E2; [apply name_eqb_eq in E2; congruence|]. auto.
   - inversion Hm; subst s'; auto.
@@ -160,3 +155,360 @@ Proof.
   - inversion Hm; subst s'; auto.
   - destruct (idx_get n (b_idx s)); [|discriminate]. inversion Hm; subst s'; auto.
 Qed.
+
+Lemma CS_ops T0 ops : forall s s' seen, forallb in_class ops = true -> types_once seen ops = true -> CS T0 seen s ->
+  apply_ops ops s = BOk s' -> exists seen', CS T0 seen' s'.
+Proof.
+  induction ops as [|o ops IH]; cbn [apply_ops forallb]; intros s s' seen Hc Hty HCS Hm.
+  - inversion Hm; subst. eauto.
+  - apply andb_true_iff in Hc. destruct Hc as [Hc1 Hc2]. destruct (apply_batch_op o s) as [s1|] eqn:A; [|discriminate].
+    assert (H1 : types_once seen [o] = true /\
+                 types_once (match o with OAlterColumn k a => match al_type a with Some _ => k :: seen | None => seen end | _ => seen end) ops = true).
+    { destruct o as [k0 c0 b a|k0|k0 a|c0|n|x|n]; cbn [types_once] in *; auto.
+      destruct (al_type a); auto. apply andb_true_iff in Hty. destruct Hty as [Ha Hb]. rewrite Ha. auto. }
+    destruct H1 as [H1 H2]. eapply IH; [exact Hc2|exact H2| |exact Hm]. apply (CS_step T0 o s s1 seen); auto.
+Qed.
+
+(* ------------------------------------------------------------------ one cell of the copied table *)
+Lemma cols_name_unique (l:list (key * col)) k c k' c' :
+  NoDup (map (fun p => c_name (snd p)) l) -> In (k, c) l -> In (k', c') l -> c_name c = c_name c' -> k = k' /\ c = c'.
+Proof. induction l as [|[k1 c1] l IH]; simpl; [tauto|]. intros Hn H1 H2 E. inversion Hn as [|? ? Hx Hl]; subst.
+  destruct H1 as [H1|H1], H2 as [H2|H2].
+  - inversion H1; inversion H2; subst; auto.
+  - inversion H1; subst. exfalso. apply Hx. rewrite E. change (c_name c') with ((fun p : key * col => c_name (snd p)) (k', c')). apply in_map; auto.
+  - inversion H2; subst. exfalso. apply Hx. rewrite <- E. change (c_name c) with ((fun p : key * col => c_name (snd p)) (k, c)). apply in_map; auto.
+  - auto. Qed.
+
+Lemma finish_names_nodup tsort s x : b_order s = [] -> finish tsort s = BOk x -> NoDup (map (fun p => c_name (snd p)) (b_cols s)).
+Proof. intros Ho. unfold finish, reorder. rewrite Ho. destruct (has_dup _) eqn:E; [discriminate|]. intros _. apply has_dup_false_NoDup; auto. Qed.
+
+Lemma finish_cm tsort s nd cm : b_order s = [] -> finish tsort s = BOk (nd, cm) ->
+  cm = flat_map (fun p => match tr_expr (snd p) with Some (src, cast) => [(cur_name (b_cols s) (fst p), src, cast)] | None => [] end) (b_tr s).
+Proof. intros Ho. unfold finish, reorder. rewrite Ho. destruct (has_dup _); [discriminate|]. destruct (no_transfer _); [discriminate|].
+  match goal with |- context [existsb ?g (flat_map x_cols (b_idx s))] => destruct (existsb g (flat_map x_cols (b_idx s))); [discriminate|] end.
+  destruct (negb (forallb _ (b_newidx s))); [discriminate|]. destruct (negb (forallb _ (b_idx s ++ b_newidx s))); [discriminate|].
+  intros E. inversion E; auto. Qed.
+
+Section Cell.
+  Variable cast : ty -> val -> val.
+  Variable dflt : col -> val.
+
+  Lemma copy_cell tsort s T0 T' nd cm r k' c' tr cs :
+    Inv s T' -> finish tsort s = BOk (nd, cm) -> NoDup (akeys (tb_cols T')) ->
+    In (k', c') (tb_cols T') -> aget k' (b_tr s) = Some tr -> tr_expr tr = Some (k', cs) ->
+    copy_val cast dflt T0 cm r c' = fold_left (fun v t => cast t v) cs (src_val T0 r k').
+  Proof.
+    intros HI Hf Hnd Hin Htr Hcs.
+    pose proof (finish_names_nodup _ _ _ (inv_ord _ _ HI) Hf) as Hnn.
+    pose proof (finish_cm _ _ _ _ (inv_ord _ _ HI) Hf) as Hcm.
+    rewrite (inv_cols _ _ HI) in Hnn, Hcm.
+    assert (Hk' : aget k' (tb_cols T') = Some c') by (apply in_aget; auto).
+    assert (Hrn : cur_name (tb_cols T') k' = c_name c') by (unfold cur_name; rewrite Hk'; auto).
+    assert (Hent : In (c_name c', k', cs) cm).
+    { rewrite Hcm. apply in_flat_map. exists (k', tr). split; [apply aget_in; auto|]. cbn. rewrite Hcs, Hrn. simpl; auto. }
+    unfold copy_val. destruct (find _ cm) as [[[dst src] cs2]|] eqn:F.
+    - apply find_some in F. destruct F as [Fin Fn]. cbn in Fn. apply name_eqb_eq in Fn.
+      rewrite Hcm in Fin. apply in_flat_map in Fin. destruct Fin as [[k2 tr2] [Hp He]]. cbn in He.
+      destruct (tr_expr tr2) as [[src2 cs3]|] eqn:Et; [|destruct He]. destruct He as [He|[]]. inversion He; subst dst src cs2; clear He.
+      pose proof (inv_src _ _ HI) as Hsrc. rewrite Forall_forall in Hsrc. destruct (Hsrc _ Hp) as [cs4 Hs4]. cbn in Hs4.
+      rewrite Et in Hs4. inversion Hs4; subst src2 cs4; clear Hs4.
+      assert (Hk2 : In k2 (akeys (tb_cols T'))).
+      { rewrite <- (inv_cols _ _ HI), <- (inv_trk _ _ HI). change k2 with (fst (k2, tr2)). apply in_map; auto. }
+      unfold akeys in Hk2. apply in_map_iff in Hk2. destruct Hk2 as [[k3 c2] [E3 H3]]. cbn in E3. subst k3.
+      assert (Hc2 : cur_name (tb_cols T') k2 = c_name c2) by (unfold cur_name; rewrite (in_aget _ _ _ Hnd H3); auto).
+      destruct (cols_name_unique _ _ _ _ _ Hnn H3 Hin) as [Ek _]; [congruence|]. subst k2.
+      assert (Etr : tr2 = tr).
+      { assert (Hn2 : NoDup (akeys (b_tr s))) by (rewrite (inv_trk _ _ HI), (inv_cols _ _ HI); auto).
+        rewrite (in_aget _ _ _ Hn2 Hp) in Htr. congruence. }
+      subst tr2. rewrite Et in Hcs. inversion Hcs; subst. auto.
+    - exfalso. pose proof (find_none _ _ F _ Hent) as Hn. cbn in Hn. rewrite name_eqb_refl in Hn. discriminate.
+  Qed.
+End Cell.
+
+(* ------------------------------------------------------------------ what the property expects in that cell *)
+Lemma expected_cell i T' r k' c' :
+  NoDup (akeys (tb_cols (j_tbl i))) -> forallb in_class (j_ops i) = true -> edit_all (j_ops i) (j_tbl i) = BOk T' ->
+  NoDup (akeys (tb_cols T')) -> NoDup (map (fun p => c_name (snd p)) (tb_cols T')) -> In (k', c') (tb_cols T') ->
+  exists c0, aget k' (tb_cols (j_tbl i)) = Some c0 /\
+    expected_val i r c' = (if N.eqb (affinity (c_ty c0)) (affinity (c_ty c')) then src_val (j_tbl i) r k'
+                           else cast_of i (c_ty c') (src_val (j_tbl i) r k')).
+Proof.
+  intros Hn Hc He Hn' Hnn Hin.
+  assert (Hk' : aget k' (tb_cols T') = Some c') by (apply in_aget; auto).
+  destruct (aget k' (tb_cols (j_tbl i))) as [c0|] eqn:G0.
+  2:{ rewrite (edit_all_absent _ _ _ _ Hc He G0) in Hk'. discriminate. }
+  exists c0. split; auto. unfold expected_val.
+  destruct (find _ (tb_cols (j_tbl i))) as [[k c1]|] eqn:F.
+  - apply find_some in F. destruct F as [Fin Fp]. cbn in Fp.
+    rewrite (final_name_spec _ _ _ _ _ Hc He (in_aget _ _ _ Hn Fin)) in Fp.
+    destruct (aget k (tb_cols T')) as [c2|] eqn:G2; cbn in Fp; [|discriminate]. apply name_eqb_eq in Fp.
+    destruct (cols_name_unique _ _ _ _ _ Hnn (aget_in _ _ _ G2) Hin Fp) as [Ek _]. subst k.
+    rewrite (in_aget _ _ _ Hn Fin) in G0. inversion G0; subst. auto.
+  - exfalso. pose proof (find_none _ _ F _ (aget_in _ _ _ G0)) as Hf. cbn in Hf.
+    rewrite (final_name_spec _ _ _ _ _ Hc He G0), Hk' in Hf. cbn in Hf. rewrite name_eqb_refl in Hf. discriminate.
+Qed.
+
+(* C10_rows, per cell: the model's cell = the expected cell *)
+Lemma cell_agrees tsort i s seen T' nd cm r k' c' :
+  NoDup (akeys (tb_cols (j_tbl i))) -> forallb in_class (j_ops i) = true -> edit_all (j_ops i) (j_tbl i) = BOk T' ->
+  Inv s T' -> CS (j_tbl i) seen s -> finish tsort s = BOk (nd, cm) -> In (k', c') (tb_cols T') ->
+  copy_val (cast_of i) (dflt_of i) (j_tbl i) cm r c' = expected_val i r c'.
+Proof.
+  intros Hn Hc He HI HCS Hf Hin.
+  pose proof (edit_all_keys_nodup _ _ _ Hc He Hn) as Hn'.
+  pose proof (finish_names_nodup _ _ _ (inv_ord _ _ HI) Hf) as Hnn. rewrite (inv_cols _ _ HI) in Hnn.
+  destruct (expected_cell i T' r k' c' Hn Hc He Hn' Hnn Hin) as [c0 [G0 Ex]]. rewrite Ex.
+  assert (Hk' : aget k' (b_cols s) = Some c') by (rewrite (inv_cols _ _ HI); apply in_aget; auto).
+  destruct (aget k' (b_tr s)) as [tr|] eqn:Gt.
+  2:{ pose proof (aget_keys_none k' (b_tr s) (b_cols s) (inv_trk _ _ HI) Gt). congruence. }
+  destruct (HCS k' tr c' Gt Hk') as [cs [c1 [H1 [H2 H3]]]]. rewrite G0 in H2. inversion H2; subst c1.
+  rewrite (copy_cell (cast_of i) (dflt_of i) tsort s (j_tbl i) T' nd cm r k' c' tr cs HI Hf Hn' Hin Gt H1).
+  destruct (mem_name k' seen).
+  - subst cs. destruct (N.eqb (affinity (c_ty c0)) (affinity (c_ty c'))); reflexivity.
+  - destruct H3 as [-> H3]. rewrite H3, N.eqb_refl. reflexivity.
+Qed.
+
+(* ------------------------------------------------------------------ the remaining clauses, on nd = describe T' *)
+Lemma survivors_ok i T' : NoDup (akeys (tb_cols (j_tbl i))) -> forallb in_class (j_ops i) = true ->
+  edit_all (j_ops i) (j_tbl i) = BOk T' -> survivors_present i (describe T') = true.
+Proof.
+  intros Hn Hc He. unfold survivors_present. apply forallb_forall. intros [k c] Hin. cbn [fst snd].
+  rewrite (final_name_spec _ _ _ _ _ Hc He (in_aget _ _ _ Hn Hin)).
+  destruct (aget k (tb_cols T')) as [c2|] eqn:G; cbn; auto. apply mem_name_In. cbn. rewrite map_map.
+  change (c_name c2) with ((fun p : key * col => c_name (snd p)) (k, c2)). apply in_map. apply aget_in; auto.
+Qed.
+
+Lemma side_ok_noadd all ops nd : forallb in_class ops = true -> side_ok_from all ops nd = true.
+Proof. induction ops as [|o ops IH]; cbn [forallb side_ok_from]; auto. intros H. apply andb_true_iff in H. destruct H as [H1 H2].
+  destruct o; cbn in H1; try discriminate; auto. Qed.
+
+Lemma desc_equiv_w_refl ad a : desc_equiv_w ad a a.
+Proof. unfold desc_equiv_w, set_equiv, same_gaps. repeat split; auto. Qed.
+
+Lemma nonprimary_kept ops : forall T T' c, forallb in_class ops = true -> edit_all ops T = BOk T' ->
+  In c (tb_cons T) -> is_primary c = false -> existsb (is_drop_con (k_name c)) ops = false -> In c (tb_cons T').
+Proof.
+  induction ops as [|o ops IH]; cbn [edit_all forallb existsb]; intros T T' c Hc He Hin Hp Hd.
+  - inversion He; subst; auto.
+  - apply andb_true_iff in Hc. destruct Hc as [Hc1 Hc2]. apply orb_false_iff in Hd. destruct Hd as [Hd1 Hd2].
+    destruct (edit o T) as [T1|] eqn:E; [|discriminate]. eapply IH; [exact Hc2|exact He| |exact Hp|exact Hd2].
+    destruct o as [k0 c0 b a|k0|k0 a|c0|n|x|n]; cbn [in_class] in Hc1; try discriminate; cbn [edit] in E.
+    + destruct (negb (has_key k0 T)); [discriminate|]. destruct (existsb _ (tb_idx T)); [discriminate|]. destruct (existsb _ (tb_cons T)); [discriminate|].
+      inversion E; subst T1; cbn. apply in_map_iff. exists c. split; auto. unfold pk_drop_col. rewrite Hp. auto.
+    + destruct (aget k0 (tb_cols T)); [|discriminate]. destruct (mem_name _ _); [discriminate|]. inversion E; subst T1; auto.
+    + destruct (_ || _); [discriminate|]. inversion E; subst T1; cbn. apply in_or_app; auto.
+    + destruct (is_some _); [|discriminate]. inversion E; subst T1; cbn. unfold con_del. apply filter_In. split; auto.
+      cbn in Hd1. rewrite name_eqb_sym. rewrite Hd1. auto.
+    + destruct (_ || _); [discriminate|]. inversion E; subst T1; auto.
+    + destruct (is_some _); [|discriminate]. inversion E; subst T1; auto.
+Qed.
+
+Lemma requested_ok_spec all ops : forall T T', forallb in_class2 ops = true -> edit_all ops T = BOk T' ->
+  requested_ok_from all ops (describe T') = true.
+Proof.
+  induction ops as [|o ops IH]; cbn [edit_all forallb requested_ok_from]; intros T T' Hc He; auto.
+  apply andb_true_iff in Hc. destruct Hc as [Hc1 Hc2]. destruct (edit o T) as [T1|] eqn:E; [|discriminate].
+  pose proof (IH T1 T' Hc2 He) as Hr.
+  destruct o as [k0 c0 b a|k0|k0 a|c0|n|x|n]; auto.
+  rewrite Hr, andb_true_r.
+  destruct (existsb (is_drop_con (k_name c0)) ops) eqn:Ed; [reflexivity|].
+  unfold in_class2 in Hc1. cbn in Hc1. apply negb_true_iff in Hc1.
+  cbn [edit] in E. destruct (_ || _); [discriminate|]. inversion E; subst T1; clear E.
+  assert (Hin : In c0 (tb_cons T')).
+  { eapply nonprimary_kept; [apply forall_class2; exact Hc2|exact He| |exact Hc1|exact Ed]. cbn. apply in_or_app; simpl; auto. }
+  rewrite !orb_true_iff. right. apply mem_name_In. cbn [describe n_cons]. rewrite map_map. cbn.
+  change (k_name c0) with ((fun c => k_name c) c0). apply in_map. apply filter_In. split; auto.
+  unfold con_visible. rewrite Hc1. auto.
+Qed.
+
+(* ------------------------------------------------------------------ untouched columns keep definition and relative order *)
+Section Untouched.
+  Variable M : list name.
+  Let f (c:col) : bool := negb (mem_name (c_name c) M).
+  (* a column's name is its key, unless an operation renamed it (the new name is then mentioned) *)
+  Definition JM (T:tbl) : Prop := forall k c, In (k, c) (tb_cols T) -> c_name c = k \/ In (c_name c) M.
+
+  Lemma filter_adel_irrel k0 (l:list (key * col)) :
+    (forall c, In (k0, c) l -> f c = false) -> filter f (map snd (adel k0 l)) = filter f (map snd l).
+  Proof. unfold adel. induction l as [|[k1 c1] l IH]; simpl; auto. intros H.
+    destruct (name_eqb k0 k1) eqn:E; simpl.
+    - apply name_eqb_eq in E. subst k1. rewrite (H c1) by auto. apply IH. intros; apply H; auto.
+    - rewrite IH; auto. Qed.
+  Lemma filter_aset_irrel k0 c c1 (l:list (key * col)) :
+    aget k0 l = Some c -> f c = false -> f c1 = false -> filter f (map snd (aset k0 c1 l)) = filter f (map snd l).
+  Proof. induction l as [|[k1 c2] l IH]; simpl; [discriminate|]. intros H Hc Hc1.
+    destruct (name_eqb k0 k1) eqn:E; simpl.
+    - inversion H; subst. rewrite Hc, Hc1. auto.
+    - rewrite IH; auto. Qed.
+  Lemma in_aset {V} k (v:V) l p : In p (aset k v l) -> In p l \/ p = (k, v) \/ (exists k', name_eqb k k' = true /\ p = (k', v)).
+  Proof. induction l as [|[k1 v1] l IH]; simpl.
+    - intros [<-|[]]; auto.
+    - destruct (name_eqb k k1) eqn:E; simpl.
+      + intros [<-|H]; auto. right; right. exists k1; auto.
+      + intros [<-|H]; auto. destruct (IH H) as [?|[?|?]]; auto. Qed.
+
+  Lemma untouched_cols ops : forall T T', forallb in_class ops = true -> edit_all ops T = BOk T' ->
+    incl (mentioned ops) M -> JM T ->
+    filter f (map snd (tb_cols T)) = filter f (map snd (tb_cols T')).
+  Proof.
+    induction ops as [|o ops IH]; cbn [edit_all forallb mentioned flat_map]; intros T T' Hc He Hm HJ.
+    - inversion He; subst; auto.
+    - apply andb_true_iff in Hc. destruct Hc as [Hc1 Hc2]. destruct (edit o T) as [T1|] eqn:E; [|discriminate].
+      assert (Hm1 : incl (op_mentions o) M) by (intros x Hx; apply Hm; apply in_or_app; auto).
+      assert (Hm2 : incl (mentioned ops) M) by (intros x Hx; apply Hm; apply in_or_app; auto).
+      assert (Hbad : forall k c, In k M -> In (k, c) (tb_cols T) -> f c = false).
+      { intros k c Hk Hin. unfold f. apply negb_false_iff. apply mem_name_In. destruct (HJ k c Hin) as [->|?]; auto. }
+      destruct o as [k0 c0 b a|k0|k0 a|c0|n|x|n]; cbn [in_class] in Hc1; try discriminate; cbn [edit] in E.
+      + destruct (negb (has_key k0 T)); [discriminate|]. destruct (existsb _ (tb_idx T)); [discriminate|]. destruct (existsb _ (tb_cons T)); [discriminate|].
+        inversion E; subst T1; clear E. rewrite <- (IH _ T' Hc2 He Hm2).
+        * cbn [tb_cols]. symmetry. apply filter_adel_irrel. intros c Hin. apply (Hbad k0); auto. apply Hm1. simpl; auto.
+        * intros k c Hin. cbn [tb_cols] in Hin. unfold adel in Hin. apply filter_In in Hin. apply HJ; tauto.
+      + destruct (aget k0 (tb_cols T)) as [c|] eqn:G; [|discriminate]. destruct (mem_name _ _); [discriminate|].
+        inversion E; subst T1; clear E.
+        assert (Hk0 : In k0 M) by (apply Hm1; simpl; auto).
+        assert (Hfc : f c = false) by (apply (Hbad k0); auto; apply aget_in; auto).
+        match goal with He : edit_all ops (mkTbl (aset k0 ?c1 _) _ _ _) = _ |- _ => set (cn := c1) in * end.
+        assert (Hcn : c_name cn = c_name c \/ In (c_name cn) M).
+        { unfold cn; cbn. destruct (al_name a) as [nn|] eqn:Ea; auto. right. apply Hm1. cbn. rewrite Ea. simpl; auto. }
+        assert (Hfn : f cn = false).
+        { destruct Hcn as [Ec|Hi]; [unfold f in *; rewrite Ec; auto|]. unfold f. apply negb_false_iff. apply mem_name_In; auto. }
+        rewrite <- (IH _ T' Hc2 He Hm2).
+        * cbn [tb_cols]. symmetry. apply (filter_aset_irrel k0 c cn); auto.
+        * intros k c2 Hin. cbn [tb_cols] in Hin. apply in_aset in Hin. destruct Hin as [Hin|[Ein|[k' [Ek Ein]]]].
+          -- apply HJ; auto.
+          -- inversion Ein; subst. destruct Hcn as [Ec|Hi]; auto. rewrite Ec. apply (HJ k0 c). apply aget_in; auto.
+          -- inversion Ein; subst. apply name_eqb_eq in Ek. subst k'. destruct Hcn as [Ec|Hi]; auto. rewrite Ec. apply (HJ k0 c). apply aget_in; auto.
+      + destruct (_ || _); [discriminate|]. inversion E; subst T1. apply (IH _ T' Hc2 He Hm2); auto.
+      + destruct (is_some _); [|discriminate]. inversion E; subst T1. apply (IH _ T' Hc2 He Hm2); auto.
+      + destruct (_ || _); [discriminate|]. inversion E; subst T1. apply (IH _ T' Hc2 He Hm2); auto.
+      + destruct (is_some _); [|discriminate]. inversion E; subst T1. apply (IH _ T' Hc2 He Hm2); auto.
+  Qed.
+End Untouched.
+
+Lemma list_eqb_col_refl l : list_eqb col_eqb l l = true.
+Proof. apply (list_eqb_spec col_eqb col_eqb_eq). auto. Qed.
+Lemma filter_ext_in' {A} (f g:A -> bool) l : (forall x, In x l -> f x = g x) -> filter f l = filter g l.
+Proof. induction l as [|x l IH]; simpl; auto. intros H. rewrite (H x) by auto. rewrite IH; auto. Qed.
+Lemma untouched_names_spec i l : untouched_names i l = true -> forall k, In k l -> ~ In k (mentioned (j_ops i)).
+Proof. unfold untouched_names, untouched_name. rewrite forallb_forall. intros H k Hk. specialize (H k Hk).
+  apply negb_true_iff in H. apply mem_name_false; auto. Qed.
+
+Lemma untouched_ok_spec i T' :
+  wf_tbl2 (j_tbl i) = true -> forallb in_class (j_ops i) = true -> edit_all (j_ops i) (j_tbl i) = BOk T' ->
+  untouched_ok i (describe T') = true.
+Proof.
+  intros Hwf Hc He. unfold wf_tbl2, wf_tbl in Hwf. rewrite !andb_true_iff in Hwf.
+  destruct Hwf as [[[[[W1 W2] W3] W4] W5] W6]. apply negb_true_iff in W4. apply has_dup_false_NoDup in W4.
+  rewrite forallb_forall in W5, W6, W1.
+  assert (Hkn : forall k c, In (k, c) (tb_cols (j_tbl i)) -> c_name c = k) by (intros k c H; apply name_eqb_eq; apply (W5 (k, c) H)).
+  assert (Hcur : forall k, cur_name (tb_cols (j_tbl i)) k = k).
+  { intros k. unfold cur_name. destruct (aget k (tb_cols (j_tbl i))) eqn:G; auto. apply Hkn. apply aget_in; auto. }
+  pose proof (edit_all_keys_nodup _ _ _ Hc He W4) as Hn'.
+  destruct (untouched_spec _ _ _ Hc He) as [B0 [B1 [B2 B3]]].
+  assert (Hcur' : forall k, ~ In k (mentioned (j_ops i)) -> cur_name (tb_cols T') k = k).
+  { intros k Hk. unfold cur_name. rewrite (B1 k Hk). apply Hcur. }
+  unfold untouched_ok. rewrite !andb_true_iff. repeat split.
+  - (* columns *)
+    match goal with |- list_eqb col_eqb ?a ?b = true => assert (E : a = b); [|rewrite E; apply list_eqb_col_refl] end.
+    cbn [describe n_cols].
+    rewrite (filter_ext_in' (fun c => untouched_name i (c_name c) && mem_name (c_name c) (names_of (j_tbl i)))
+                            (fun c => negb (mem_name (c_name c) (mentioned (j_ops i)))) (map snd (tb_cols T'))).
+    + apply (untouched_cols (mentioned (j_ops i)) (j_ops i) (j_tbl i) T' Hc He); [intros x; auto|]. intros k c H. left. apply Hkn; auto.
+    + intros c Hin. unfold untouched_name. destruct (mem_name (c_name c) (mentioned (j_ops i))) eqn:Em; cbn; auto.
+      apply mem_name_In. apply in_map_iff in Hin. destruct Hin as [[k' c'] [Es Hin]]. cbn in Es. subst c'.
+      destruct (aget k' (tb_cols (j_tbl i))) as [c0|] eqn:G0.
+      2:{ pose proof (edit_all_absent _ _ _ _ Hc He G0) as Habs. rewrite (in_aget _ _ _ Hn' Hin) in Habs. discriminate. }
+      pose proof (final_name_spec _ _ _ _ _ Hc He G0) as Hf. rewrite (in_aget _ _ _ Hn' Hin) in Hf. cbn in Hf.
+      destruct (final_name_mentioned _ _ _ _ Hf) as [En|Hm].
+      * rewrite En. unfold names_of. change (c_name c0) with ((fun p : key * col => c_name (snd p)) (k', c0)). apply in_map. apply aget_in; auto.
+      * exfalso. apply mem_name_false in Em. auto.
+  - (* primary key *)
+    destruct (untouched_names i (tb_pk (j_tbl i))) eqn:Eu; auto. apply names_eqb_eq.
+    pose proof (untouched_names_spec i _ Eu) as Hpk.
+    rewrite (untouched_pk _ _ _ Hc He Hpk). cbn [describe n_pk]. rewrite (map_ext _ (fun k => k) Hcur). apply map_id.
+  - (* named constraints *)
+    apply forallb_forall. intros c Hin. destruct (untouched_name i (k_name c) && untouched_names i (k_cols c)) eqn:Eu; auto.
+    apply andb_true_iff in Eu. destruct Eu as [Eu1 Eu2]. apply negb_true_iff, mem_name_false in Eu1.
+    pose proof (untouched_names_spec i _ Eu2) as Hcols.
+    apply existsb_exists. exists c. split; [|apply con_eqb_eq; auto].
+    cbn [describe n_cons]. apply in_map_iff. exists c. split.
+    + destruct c as [n kd cs]. cbn in *. f_equal. rewrite (map_ext_in _ (fun k => k)); [apply map_id|]. intros k Hk. apply Hcur'. auto.
+    + apply filter_In. split; [apply B2; auto|apply W6; auto].
+  - (* indexes *)
+    apply forallb_forall. intros x Hin. destruct (untouched_name i (x_name x) && untouched_names i (x_cols x)) eqn:Eu; auto.
+    apply andb_true_iff in Eu. destruct Eu as [Eu1 Eu2]. apply negb_true_iff, mem_name_false in Eu1.
+    pose proof (untouched_names_spec i _ Eu2) as Hcols.
+    apply existsb_exists. exists x. split; [|apply index_eqb_eq; auto].
+    cbn [describe n_idx]. apply in_map_iff. exists x. split; [|apply B3; auto].
+    destruct x as [n cs u]. cbn in *. f_equal. rewrite (map_ext_in _ (fun k => k)); [apply map_id|]. intros k Hk. apply Hcur'. auto.
+Qed.
+
+(* ------------------------------------------------------------------ the main theorem *)
+Lemma command_error_always seen ops : command_error true seen ops = false.
+Proof. revert seen. induction ops as [|o ops IH]; intros seen; cbn [command_error]; auto. rewrite IH.
+  destruct o; cbn; auto. rewrite andb_false_r. auto. Qed.
+
+Theorem main10 i : inclass_C10 i = true -> C10_holds i (model10 i).
+Proof.
+  unfold inclass_C10. rewrite !andb_true_iff. intros [[[[Ha Hwf] Hc2] Hty] Hs].
+  pose proof (forall_class2 _ Hc2) as Hc.
+  unfold specok in Hs. destruct (edit_all (j_ops i) (j_tbl i)) as [T'|] eqn:He; [|discriminate]. clear Hs.
+  assert (Hwf1 : wf_tbl (j_tbl i) = true /\ NoDup (akeys (tb_cols (j_tbl i)))).
+  { unfold wf_tbl2 in Hwf. rewrite !andb_true_iff in Hwf. destruct Hwf as [[[W1 W2] _] _]. split; auto.
+    apply has_dup_false_NoDup. apply negb_true_iff; auto. }
+  destruct Hwf1 as [Hwf1 Hn].
+  unfold model10. rewrite Ha, command_error_always. cbn [orb].
+  destruct (batch sa_tsort (j_tbl i) (j_ops i)) as [[nd cm]|e] eqn:Hb; [|exact I].
+  unfold batch in Hb. destruct (apply_ops (j_ops i) (init (j_tbl i))) as [s|] eqn:Hm; [|discriminate].
+  pose proof (ops_refine _ _ _ _ _ Hc (init_inv _ Hwf1) Hm He) as HI.
+  destruct (CS_ops (j_tbl i) _ _ _ [] Hc Hty (CS_init _ Hn) Hm) as [seen HCS].
+  destruct (finish_inv sa_tsort s T' nd cm HI Hb) as [End _].
+  cbn [C10_holds]. split; [reflexivity|]. split; [apply copy_rows_length|].
+  split; [rewrite End; apply survivors_ok; auto|].
+  split.
+  { (* rows: cell by cell *)
+    assert (E : copy_rows (cast_of i) (dflt_of i) (j_tbl i) nd cm (j_rows i) = expected_rows i nd); [|rewrite E; apply mseq_refl].
+    unfold copy_rows, expected_rows. apply map_ext. intros r. apply map_ext_in. intros c' Hin.
+    rewrite End in Hin. cbn [describe n_cols] in Hin. apply in_map_iff in Hin. destruct Hin as [[k' c''] [Es Hin]]. cbn in Es. subst c''.
+    apply (cell_agrees sa_tsort i s seen T' nd cm r k' c'); auto. }
+  split; [rewrite End; apply untouched_ok_spec; auto|].
+  split; [rewrite End; apply (requested_ok_spec _ _ (j_tbl i)); auto|].
+  split; [apply side_ok_noadd; auto|].
+  intros T'' He'. rewrite He in He'. inversion He'; subst T''. rewrite End. apply desc_equiv_w_refl.
+Qed.
+
+(* ------------------------------------------------------------------ C10_rows per cell, for every CAST / DEFAULT behaviour *)
+Theorem cell_value cast dflt i T' nd cm r k' c' :
+  inclass_C10 i = true -> edit_all (j_ops i) (j_tbl i) = BOk T' -> batch sa_tsort (j_tbl i) (j_ops i) = BOk (nd, cm) ->
+  In (k', c') (tb_cols T') ->
+  In c' (n_cols nd) /\
+  exists c0, aget k' (tb_cols (j_tbl i)) = Some c0 /\
+    copy_val cast dflt (j_tbl i) cm r c' =
+      (if N.eqb (affinity (c_ty c0)) (affinity (c_ty c')) then src_val (j_tbl i) r k' else cast (c_ty c') (src_val (j_tbl i) r k')).
+Proof.
+  unfold inclass_C10. rewrite !andb_true_iff. intros [[[[Ha Hwf] Hc2] Hty] _] He Hb Hin.
+  pose proof (forall_class2 _ Hc2) as Hc.
+  assert (Hwf1 : wf_tbl (j_tbl i) = true /\ NoDup (akeys (tb_cols (j_tbl i)))).
+  { unfold wf_tbl2 in Hwf. rewrite !andb_true_iff in Hwf. destruct Hwf as [[[W1 W2] _] _]. split; auto.
+    apply has_dup_false_NoDup. apply negb_true_iff; auto. }
+  destruct Hwf1 as [Hwf1 Hn].
+  unfold batch in Hb. destruct (apply_ops (j_ops i) (init (j_tbl i))) as [s|] eqn:Hm; [|discriminate].
+  pose proof (ops_refine _ _ _ _ _ Hc (init_inv _ Hwf1) Hm He) as HI.
+  destruct (CS_ops (j_tbl i) _ _ _ [] Hc Hty (CS_init _ Hn) Hm) as [seen HCS].
+  destruct (finish_inv sa_tsort s T' nd cm HI Hb) as [End _].
+  split. { rewrite End. cbn. change c' with (snd (k', c')). apply in_map; auto. }
+  pose proof (edit_all_keys_nodup _ _ _ Hc He Hn) as Hn'.
+  assert (Hk' : aget k' (b_cols s) = Some c') by (rewrite (inv_cols _ _ HI); apply in_aget; auto).
+  destruct (aget k' (b_tr s)) as [tr|] eqn:Gt.
+  2:{ pose proof (aget_keys_none k' (b_tr s) (b_cols s) (inv_trk _ _ HI) Gt). congruence. }
+  destruct (HCS k' tr c' Gt Hk') as [cs [c0 [H1 [H2 H3]]]]. exists c0. split; auto.
+  rewrite (copy_cell cast dflt sa_tsort s (j_tbl i) T' nd cm r k' c' tr cs HI Hb Hn' Hin Gt H1).
+  destruct (mem_name k' seen).
+  - subst cs. destruct (N.eqb (affinity (c_ty c0)) (affinity (c_ty c'))); reflexivity.
+  - destruct H3 as [-> H3]. rewrite H3, N.eqb_refl. reflexivity.
+Qed.
+
+(* a column that is not the destination of any transfer (an added column) holds what the database fills in *)
+Lemma cell_default cast dflt T cm r c : (forall e, In e cm -> fst (fst e) <> c_name c) -> copy_val cast dflt T cm r c = dflt c.
+Proof. intros H. unfold copy_val. destruct (find _ cm) as [[[dst src] cs]|] eqn:F; auto.
+  apply find_some in F. destruct F as [Fin Fn]. cbn in Fn. apply name_eqb_eq in Fn. exfalso. apply (H _ Fin). cbn. auto. Qed.
